@@ -167,3 +167,63 @@ Proof. intros Hq s. apply ns_or_invisible. intros x s1 _ _. apply Hq. Qed.
 (* a literal is quiet under both evaluators *)
 Lemma lit_quiet D funcs k ty z : quiet (ieval D funcs (S k) ty (ENum z)).
 Proof. intros s. exists z. reflexivity. Qed.
+
+(* ------------------------------------------------------------------ the repaired deviations: positive laws of Mech *)
+Lemma bind_ret_l {A B} (a : A) (f : A -> M B) s : bind (ret a) f s = f a s.
+Proof. reflexivity. Qed.
+Lemma bind_map_ret {A B C} (m : M A) (g : A -> B) (h : B -> M C) s :
+  bind (bind m (fun x => ret (g x))) h s = bind m (fun x => h (g x)) s.
+Proof. unfold bind, ret. destruct (m s) as [c s1]. destruct c; reflexivity. Qed.
+
+Section Repaired.
+Variable D : dev.
+Variable funcs : list func.
+
+(* d_noshort off (a51b767): Mech's && || are Ref's combinators over Mech's operand evaluation, hence the
+   short-circuit laws hold of Mech for every operand, flag, fuel and state *)
+Lemma mech_and_eq k ty a b : d_noshort D = false ->
+  ieval D funcs (S k) ty (EAnd a b) = sc_and (ieval D funcs k ty a) (ieval D funcs k ty b).
+Proof. intros H. cbn [ieval]. rewrite H. reflexivity. Qed.
+Lemma mech_or_eq k ty a b : d_noshort D = false ->
+  ieval D funcs (S k) ty (EOr a b) = sc_or (ieval D funcs k ty a) (ieval D funcs k ty b).
+Proof. intros H. cbn [ieval]. rewrite H. reflexivity. Qed.
+
+Lemma mech_and_skips_rhs_l k ty a b s s1 : d_noshort D = false ->
+  ieval D funcs k ty a s = (Val 0, s1) -> ieval D funcs (S k) ty (EAnd a b) s = (Val 0, s1).
+Proof. intros H Ha. rewrite (mech_and_eq _ _ _ _ H). unfold sc_and, bind. rewrite Ha. reflexivity. Qed.
+Lemma mech_or_skips_rhs_l k ty a b s x s1 : d_noshort D = false ->
+  ieval D funcs k ty a s = (Val x, s1) -> x <> 0 -> ieval D funcs (S k) ty (EOr a b) s = (Val 1, s1).
+Proof.
+  intros H Ha Hx. rewrite (mech_or_eq _ _ _ _ H). unfold sc_or, bind. rewrite Ha.
+  apply Z.eqb_neq in Hx. rewrite Hx. reflexivity.
+Qed.
+
+(* the guard of the property text, for Mech: d = 0 -> `d != 0 && X` is 0, state unchanged, for any X *)
+Lemma mech_guard_zero_any k ty d x s : d_noshort D = false -> m_read d [] s = (Val 0, s) ->
+  ieval D funcs (S (S (S k))) ty (EAnd (EBin Ne (EVar d) (ENum 0)) x) s = (Val 0, s).
+Proof.
+  intros H Hd. apply mech_and_skips_rhs_l; [exact H|].
+  cbn [ieval]. unfold bind. rewrite Hd. reflexivity.
+Qed.
+
+(* d_rtl off (2967bbb): subscript lists are evaluated by Ref's left-to-right list evaluator *)
+Lemma mech_index_list_ltr ev es : d_rtl D = false -> index_list D ev es = eval_list (ev false) es.
+Proof. intros H. unfold index_list. rewrite H. reflexivity. Qed.
+
+(* d_elemcall off (df79998): nothing is evaluated ahead of the value of an assignment *)
+Lemma mech_no_pre_eval ev lv e : d_elemcall D = false -> pre_eval D ev lv e = ret tt.
+Proof. intros H. unfold pre_eval. rewrite H. destruct lv; [reflexivity|]. destruct e; reflexivity. Qed.
+
+(* so an element store is: the value, the subscripts left to right (each once), the write *)
+Lemma mech_elem_store_order k a idx e s : d_rtl D = false -> d_elemcall D = false ->
+  iexec D funcs (S k) (SAssign (LIdx a idx) None e) s =
+  (v <- ieval D funcs k true e ;; is_ <- eval_list (ieval D funcs k false) idx ;; m_write a is_ v) s.
+Proof.
+  intros Hr He. cbn [iexec]. rewrite (mech_no_pre_eval _ _ _ He). cbn [ilval_target].
+  rewrite (mech_index_list_ltr _ _ Hr). rewrite bind_ret_l.
+  apply bind_ext; [apply meq_refl|]. intros v s1. apply bind_map_ret.
+Qed.
+End Repaired.
+
+Lemma dev_pinned_repaired : d_noshort dev_pinned = false /\ d_rtl dev_pinned = false /\ d_elemcall dev_pinned = false.
+Proof. repeat split. Qed.
